@@ -62,9 +62,9 @@ _counter = [0]
 # ---------------------------------------------------------------------------
 
 def _variants(ctx):
-    v = ['public', 'private_fresh']
+    v = ['public', 'private_fresh', 'private_reload']
     if ctx.thorough():
-        v += ['private_late', 'private_reload', 'private_after_mutation', 'private_interleaved_a',
+        v += ['private_late', 'private_after_mutation', 'private_interleaved_a',
               'private_interleaved_b']
     return v
 
@@ -208,15 +208,15 @@ def _build(ctx):
         ctx.info['public_loader_runs_at_first_touch'] = first
         if all(n == 1 for n in first.values()):
             ctx.count('reach.public_first_touch_loaded_all_five')
-    if ctx.thorough() and 'private_late' not in tables:
-        _guard('private_late', 'history', lambda: _history(ctx))
-        tables['private_late'] = _fresh(ctx, 'private_late', 'late')
         # reload after every value was overwritten must restore the tabulated values
         T3 = _fresh(ctx, 'private_reload', 'reload')
         _guard('private_reload', 'scramble', lambda: _scramble(T3, model))
         for g in GROUPS:
             _guard('private_reload', g, lambda g=g: _private_init(T3, g, reload=True))
         tables['private_reload'] = T3
+    if ctx.thorough() and 'private_late' not in tables:
+        _guard('private_late', 'history', lambda: _history(ctx))
+        tables['private_late'] = _fresh(ctx, 'private_late', 'late')
         # a table created after another private table was overwritten
         T4a = _fresh(ctx, 'private_after_mutation', 'mut')
         _guard('private_after_mutation', 'scramble', lambda: _scramble(T4a, model))
@@ -665,6 +665,12 @@ def _f0(ctx, tname, el, atoms, G):
                           group='f0', route=route, entry=True, charge=q, kind='expression',
                           looks_like=_like_cm(ctx, got))
             continue
+        idx = (0, 1, 66, 133, 199)      # as many points as the formula has Gaussians
+        lst = atom.xray.f0([grid[i] for i in idx])
+        ctx.evaluated(len(idx), 'formfactor-shape')
+        if np.shape(lst) != (len(idx),) or not all(_scalar_ok(lst[k], ref[i]) for k, i in enumerate(idx)):
+            ctx.violation('f0(list of 5) of %s = %r differs from the vector call' % (atom, lst), group='f0',
+                          route=route, charge=q, kind='shape')
         for i in (0, 77, 199):
             for arg in (grid[i], [grid[i]]):
                 v = atom.xray.f0(arg)
